@@ -96,6 +96,13 @@ func (f changeFinder) changed() {
 func (f changeFinder) commentsFor(n *value) (before, after []*ast.Comment) {
 	pos, end := n.Pos(), n.End()
 	for _, cg := range n.Comments {
+		if len(cg.List) == 0 {
+			// All comments of this group were removed together with
+			// the code an earlier change rewrote. An empty group has
+			// no position.
+			continue
+		}
+
 		if cg.End() <= pos {
 			before = append(before, cg.List...)
 		}
